@@ -1,0 +1,23 @@
+//! Verification hook for property C16 (cargo feature `verif-hooks`, off by default).
+//! Read-only: records what every `write` to the tty inside `UnixTerminal::poll` was offered and
+//! what it accepted (0 = EAGAIN/EINTR), and exposes the byte count of the private write queue.
+use std::sync::Mutex;
+
+static TRACE: Mutex<Vec<(usize, usize)>> = Mutex::new(Vec::new());
+
+pub(super) fn record(offered: usize, accepted: usize) {
+    TRACE
+        .lock()
+        .unwrap_or_else(|err| err.into_inner())
+        .push((offered, accepted));
+}
+
+/// (offered, accepted) for every tty write since the last call, in order
+pub fn take_trace() -> Vec<(usize, usize)> {
+    std::mem::take(&mut *TRACE.lock().unwrap_or_else(|err| err.into_inner()))
+}
+
+/// `write_queue.len()` of the terminal
+pub fn queue_len(term: &super::UnixTerminal) -> usize {
+    term.write_queue.len()
+}
